@@ -2,3 +2,4 @@ pub mod chaingen;
 pub mod chainsim;
 pub mod kv06;
 pub mod pfx07;
+pub mod stakesim;
